@@ -42,6 +42,9 @@ type GroupRouter struct {
 
 	mu     sync.RWMutex
 	routes map[string]string // groupID -> brokerID
+	// loadedRev is the etcd revision of the last full read; the watch resumes
+	// right after it so no change between the read and the watch is missed.
+	loadedRev int64
 }
 
 // NewGroupRouter creates a router and starts watching etcd for group lease changes.
@@ -117,6 +120,9 @@ func (r *GroupRouter) loadAll(ctx context.Context) error {
 	}
 	r.mu.Lock()
 	r.routes = fresh
+	if resp.Header != nil {
+		r.loadedRev = resp.Header.Revision
+	}
 	r.mu.Unlock()
 	r.logger.Info("loaded group routes from etcd", "count", len(fresh))
 	return nil
@@ -124,7 +130,13 @@ func (r *GroupRouter) loadAll(ctx context.Context) error {
 
 func (r *GroupRouter) watch(ctx context.Context) {
 	for {
-		watchChan := r.client.Watch(ctx, groupLeasePrefix+"/", clientv3.WithPrefix(), clientv3.WithPrevKV())
+		opts := []clientv3.OpOption{clientv3.WithPrefix(), clientv3.WithPrevKV()}
+		r.mu.RLock()
+		if r.loadedRev > 0 {
+			opts = append(opts, clientv3.WithRev(r.loadedRev+1))
+		}
+		r.mu.RUnlock()
+		watchChan := r.client.Watch(ctx, groupLeasePrefix+"/", opts...)
 		for resp := range watchChan {
 			if resp.Err() != nil {
 				r.logger.Warn("group lease watch error", "error", resp.Err())
